@@ -4,6 +4,8 @@ import (
 	"fmt"
 	"os"
 	"path/filepath"
+	"sort"
+	"strconv"
 	"strings"
 	"time"
 
@@ -73,7 +75,16 @@ func c20Case(w *core.Worker, i int) {
 	var hist []stmt
 	insN := 0
 	for k := 0; k < n; k++ {
-		switch c := r.Intn(14); {
+		switch c := r.Intn(16); {
+		case c >= 14 && i%4 == 3:
+			hist = append(hist, stmt{"select", "SELECT id, ver, note FROM t;"}) // (the JSON histories keep to ids whose spelling the file fixes)
+		case c == 14:
+			// a second row with a key the table already holds (ids are no keys to csvq)
+			insN++
+			hist = append(hist, stmt{"insert", fmt.Sprintf("INSERT INTO t VALUES (%d, 'A', 'dup%d');", r.Range(1, 2), k)})
+		case c == 15:
+			// REPLACE: every row holding a given key is overwritten, a record with a new key is added — both are changes of A's own
+			hist = append(hist, stmt{"replace", fmt.Sprintf("REPLACE INTO t (id, ver, note) USING (id) VALUES (%d, 'A', 'rp%d'), (%d, 'A', 'rn%d');", r.Range(1, 3), k, 200+k, k)})
 		case c <= 2:
 			hist = append(hist, stmt{"select", "SELECT id, ver, note FROM t;"})
 		case c == 3:
@@ -190,8 +201,20 @@ func c20Run(w *core.Worker, ci int, hsql []string, kind func(int) string, gaps [
 					bCommittedWhileLoaded = true
 				}
 			default:
-				viol(k, "b-failed", fmt.Sprintf("B failed with exit %d although A holds no lock: %s", res.Code, truncateStr(res.Stderr, 150)))
-				return
+				// a 0.2 s deadline also runs out on a loaded machine with nobody holding the file: B is given ten seconds once more —
+				// with no lock held it ends at once, against a lock A should not hold it still fails
+				res = core.RunProc(core.ProcOpts{Dir: dir, Args: csvqArgs("-q", "--wait-timeout", "10", fmt.Sprintf("UPDATE t SET ver = '%s';", stamp)), Timeout: 60 * time.Second})
+				if res.Code != 0 {
+					viol(k, "b-failed", fmt.Sprintf("B failed with exit %d although A holds no lock: %s", res.Code, truncateStr(res.Stderr, 150)))
+					return
+				}
+				w.Count("commits_of_B_repeated_with_a_longer_deadline", 1)
+				for j := range disk {
+					disk[j].ver = stamp
+				}
+				if loaded {
+					bCommittedWhileLoaded = true
+				}
 			}
 		}
 		res := s.Exec(hsql[k])
@@ -219,11 +242,38 @@ func c20Run(w *core.Worker, ci int, hsql []string, kind func(int) string, gaps [
 			if bCommittedWhileLoaded {
 				readAfter = true
 			}
-			if c20Text(got) != c20Text(work) {
-				viol(k, "stale-or-foreign-data:"+kind(k), fmt.Sprintf("A read [%s], its transaction must see [%s] (file now: [%s])", c20Text(got), c20Text(work), c20Text(disk)))
+			expect := work
+			if strings.Contains(hsql[k], " JOIN t b ") || strings.Contains(hsql[k], "FROM u") {
+				// joins: a key held by two rows pairs each with both (self-join); u lists the ids 1..3 and 101..109 once each.
+				// The order of a join's rows is no part of this property: both sides are compared as bags
+				expect = nil
+				for _, a := range work {
+					if strings.Contains(hsql[k], "FROM u") {
+						if n, _ := strconv.Atoi(a.id); (n >= 1 && n <= 3) || (n >= 101 && n <= 109) {
+							expect = append(expect, a)
+						}
+						continue
+					}
+					for _, b := range work {
+						if a.id == b.id {
+							expect = append(expect, c20Row{a.id, b.ver, a.note})
+						}
+					}
+				}
+				byText := func(rows []c20Row) {
+					sort.SliceStable(rows, func(x, y int) bool {
+						return rows[x].id+":"+rows[x].ver+":"+rows[x].note < rows[y].id+":"+rows[y].ver+":"+rows[y].note
+					})
+				}
+				got = append([]c20Row{}, got...)
+				byText(got)
+				byText(expect)
+			}
+			if c20Text(got) != c20Text(expect) {
+				viol(k, "stale-or-foreign-data:"+kind(k), fmt.Sprintf("A read [%s], its transaction must see [%s] (file now: [%s])", c20Text(got), c20Text(expect), c20Text(disk)))
 				return
 			}
-		case "update", "insert", "delete":
+		case "update", "insert", "delete", "replace":
 			if !exclusive {
 				// first data-changing access: the documented reload
 				work, loaded, exclusive = cp(disk), true, true
@@ -244,6 +294,20 @@ func c20Run(w *core.Worker, ci int, hsql []string, kind func(int) string, gaps [
 				id = strings.TrimSuffix(id, ",")
 				note = strings.TrimSuffix(strings.Trim(f[len(f)-1], "');"), "'")
 				work = append(work, c20Row{id, "A", note})
+			case "replace":
+				var id1, id2, k1, k2 int
+				fmt.Sscanf(hsql[k], "REPLACE INTO t (id, ver, note) USING (id) VALUES (%d, 'A', 'rp%d'), (%d, 'A', 'rn%d');", &id1, &k1, &id2, &k2)
+				for _, g := range []c20Row{{fmt.Sprint(id1), "A", fmt.Sprintf("rp%d", k1)}, {fmt.Sprint(id2), "A", fmt.Sprintf("rn%d", k2)}} {
+					hit := false
+					for j := range work {
+						if work[j].id == g.id {
+							work[j], hit = g, true
+						}
+					}
+					if !hit {
+						work = append(work, g)
+					}
+				}
 			case "delete":
 				id := f[len(f)-1]
 				var nw []c20Row
